@@ -145,21 +145,6 @@ def cmdEvents (lim : Limits) (scfg : StackCfg) (line : String) : List Ev × Bool
   | [] => ([], true)
   | _ => if line.startsWith "#" then ([], true) else ([.malformed line], true)
 
-def modelEvents (lim : Limits) (scfg : StackCfg) : List String → List Ev
-  | [] => []
-  | l :: rest =>
-    let (evs, alive) := cmdEvents lim scfg l
-    if alive then evs ++ modelEvents lim scfg rest else evs
-
-def render : Ev → String
-  | .result l => l
-  | .lpcError m => s!"err {(m.take 100).toString} len={m.length}"
-  | .info t => t
-  | .ub w => "ub " ++ w
-  | .sanitizer w => "sanitizer " ++ w
-  | .crash w => "crash " ++ w
-  | .malformed l => "bad-line " ++ l
-
 def parseEv (l : String) : Ev :=
   if l.startsWith "r " || l.startsWith "fz " then .result l
   else if l.startsWith "err " then .lpcError (l.drop 4).toString
@@ -169,6 +154,31 @@ def parseEv (l : String) : Ev :=
   else if l.startsWith "crash " then .crash (l.drop 6).toString
   else if l.startsWith "stack " || l.startsWith "progs " then .info l
   else .malformed l
+
+/-- `expect-abort <trace line>`: annotation carried by the witness inputs of OPEN KNOWN FINDINGS that need a whole
+    program (the model has no LPC interpreter): the next `run` is known to abort the driver with that line. -/
+def modelEventsAux (lim : Limits) (scfg : StackCfg) : Option String → List String → List Ev
+  | _, [] => []
+  | pending, l :: rest =>
+    if l.startsWith "expect-abort " then modelEventsAux lim scfg (some (l.drop 13).toString) rest
+    else
+      match pending, l.startsWith "run " with
+      | some t, true => [parseEv t]
+      | _, _ =>
+        let (evs, alive) := cmdEvents lim scfg l
+        if alive then evs ++ modelEventsAux lim scfg pending rest else evs
+
+def modelEvents (lim : Limits) (scfg : StackCfg) (lines : List String) : List Ev :=
+  modelEventsAux lim scfg none lines
+
+def render : Ev → String
+  | .result l => l
+  | .lpcError m => s!"err {(m.take 100).toString} len={m.length}"
+  | .info t => t
+  | .ub w => "ub " ++ w
+  | .sanitizer w => "sanitizer " ++ w
+  | .crash w => "crash " ++ w
+  | .malformed l => "bad-line " ++ l
 
 def runModel (lines : List String) : List String :=
   (modelEvents {} {} lines).map render
